@@ -192,70 +192,73 @@ def run_refurb(settings: Settings) -> Sequence[Error | str]:
     opt.timing_stats = str(mypy_timing_stats) if mypy_timing_stats else None
 
     try:
-        start = time.time()
+        try:
+            start = time.time()
 
-        result = build(files, options=opt)
+            result = build(files, options=opt)
 
-        mypy_build_time = time.time() - start
+            mypy_build_time = time.time() - start
 
-    except CompileError as e:
-        return [re.sub("^mypy: ", "refurb: ", msg) for msg in e.messages]
+        except CompileError as e:
+            return [re.sub("^mypy: ", "refurb: ", msg) for msg in e.messages]
 
-    errors: list[Error | str] = []
-    checks = load_checks(settings)
+        errors: list[Error | str] = []
+        checks = load_checks(settings)
 
-    refurb_timing_stats_in_ms: dict[str, int] = {}
+        refurb_timing_stats_in_ms: dict[str, int] = {}
 
-    builtins_file = result.graph["builtins"].tree
-    assert builtins_file
+        builtins_file = result.graph["builtins"].tree
+        assert builtins_file
 
-    # Store the builtins module AST node as a global variable so we can access it later to create
-    # certain type nodes. This isn't the most elegant solution, but is more lightweight compared to
-    # creating a new type checker instance.
-    types.BUILTINS_MYPY_FILE = builtins_file
+        # Store the builtins module AST node as a global variable so we can access it later to create
+        # certain type nodes. This isn't the most elegant solution, but is more lightweight compared to
+        # creating a new type checker instance.
+        types.BUILTINS_MYPY_FILE = builtins_file
 
-    for file in files:
-        tree = result.graph[file.module].tree
+        for file in files:
+            tree = result.graph[file.module].tree
 
-        assert tree
+            assert tree
 
-        if settings.debug:
-            errors.append(str(tree))
+            if settings.debug:
+                errors.append(str(tree))
 
-        start = time.time()
+            start = time.time()
 
-        visitor = RefurbVisitor(checks, settings)
+            visitor = RefurbVisitor(checks, settings)
 
-        # See: https://github.com/dosisod/refurb/issues/302
-        with suppress(RecursionError):
-            visitor.accept(tree)
+            # See: https://github.com/dosisod/refurb/issues/302
+            with suppress(RecursionError):
+                visitor.accept(tree)
 
-        elapsed = time.time() - start
+            elapsed = time.time() - start
 
-        refurb_timing_stats_in_ms[file.module] = int(elapsed * 1_000)
+            refurb_timing_stats_in_ms[file.module] = int(elapsed * 1_000)
 
-        for error in visitor.errors:
-            error.filename = file.path
+            for error in visitor.errors:
+                error.filename = file.path
 
-            if file.path:
-                error.column = byte_offset_to_column(file.path, error.line, error.column)
+                if file.path:
+                    error.column = byte_offset_to_column(file.path, error.line, error.column)
 
-        errors += visitor.errors
+            errors += visitor.errors
 
-    output_timing_stats(
-        settings,
-        mypy_build_time,
-        mypy_timing_stats,
-        refurb_timing_stats_in_ms,
-    )
+        output_timing_stats(
+            settings,
+            mypy_build_time,
+            mypy_timing_stats,
+            refurb_timing_stats_in_ms,
+        )
 
-    if mypy_timing_stats:
-        mypy_timing_stats.unlink()
+        return sorted(
+            [error for error in errors if not should_ignore_error(error, settings)],
+            key=partial(sort_errors, settings=settings),
+        )
 
-    return sorted(
-        [error for error in errors if not should_ignore_error(error, settings)],
-        key=partial(sort_errors, settings=settings),
-    )
+    finally:
+        # Whatever happens (a blocking Mypy error, an invalid plugin, ...) the temporary file goes
+        if mypy_timing_stats:
+            mypy_timing_stats.unlink(missing_ok=True)
 
 
 def sort_errors(error: Error | str, settings: Settings) -> tuple[str | int, ...]:
